@@ -320,7 +320,8 @@ def run_case(ctx, nthreads, max_events, deep=0, nested_line=0):
 
 def run(ctx):
     import logging
-    logging.getLogger("deep").setLevel(logging.CRITICAL + 1)
+    from ..lib.quiet import quiet_logging
+    quiet_logging()
     ctx.rule = ("1-3 real threads, each delivering a generated well-formed trace (up to 60 events: calls of 3 functions in 2 "
                 "files with same-named nesting to depth 5, lines, caught and propagating exceptions, returns, several "
                 "outermost calls per thread) through synthetic frames, interleaved at event granularity in a generated order; "
